@@ -110,6 +110,7 @@ class Ctx(object):
             self.tmpdir = tempfile.mkdtemp(prefix="traphverif-")
             folder = self.tmpdir + "/idx"
         O.ENCODING[0] = cfg.get("encoding", "utf-8")
+        O.TEXT_ANCHORS[0] = bool(cfg.get("text_anchors"))
         self.sut = O.Sut(self.backend, self.default, self.rules, folder=folder, encoding=cfg.get("encoding", "utf-8"))
         self.disk = self.sut.disk
         self.obs_rng = random.Random(case.get("obs_seed", 0))
